@@ -44,11 +44,11 @@ JOBS = {
          "thorough": {"constants": {"Reps": "{1, 2, 3, 8, 40, 256, 4096, 65536}", "MaxSteps": 2}, "timeout": 3000}},
         {"module": "MC_Machine", "spec": "Spec", "invariants": ["InvTotal", "InvDecodeOutcome", "InvOneItem", "InvReencode", "InvFixed", "Emit"],
          "quick": {"constants": {"MaxDepth": 3}, "timeout": 600},
-         # depth 4 has > 10^7 states: breadth-first for 20 minutes (all of depth 3, then as much of depth 4 as fits)
-         "thorough": {"constants": {"MaxDepth": 4}, "timeout": 1200, "time_bounded": True}},
+         # depth 4 has > 10^7 states: breadth-first for 12 minutes (all of depth 3, then as much of depth 4 as fits)
+         "thorough": {"constants": {"MaxDepth": 4}, "timeout": 720, "time_bounded": True}},
         {"module": "MC_Machine", "spec": "Spec", "invariants": ["InvTotal", "InvDecodeOutcome", "InvOneItem", "InvReencode", "InvFixed", "Emit"],
          "thorough_only": True,
-         "thorough": {"constants": {"MaxDepth": 30}, "simulate": 3000, "depth": 30, "timeout": 1200, "time_bounded": True}},
+         "thorough": {"constants": {"MaxDepth": 30}, "simulate": 3000, "depth": 30, "timeout": 720, "time_bounded": True}},
         {"kind": "cmd", "name": "fuzz", "cmd": ["fuzz", "--prop", "C01", "--seed", "{seed}", "--tier", "{tier}", "--summary", "{summary}",
                                                "--replay-dir", "{replays}"],
          "quick": {"timeout": 1200}, "thorough": {"timeout": 3000}},
@@ -150,7 +150,7 @@ JOBS = {
     "C10": [
         {"module": "MC_KeyDecode", "spec": "Spec", "invariants": MAP_INV + ["InvOpsOrder"],
          "quick": {"constants": {"MaxLen": 2, "MaxKeys": 3}, "timeout": 900},
-         "thorough": {"constants": {"MaxLen": 3, "MaxKeys": 4}, "timeout": 1800, "time_bounded": True},
+         "thorough": {"constants": {"MaxLen": 3, "MaxKeys": 4}, "timeout": 1200, "time_bounded": True},
          "rule": "every COSE_Key map over the entry palette up to MaxLen entries and every key set up to MaxKeys elements "
                  "(each state = one item); non-trivial = non-empty container"},
     ],
@@ -167,15 +167,15 @@ JOBS = {
     "C09": [
         {"module": "MC_MsgDecode", "spec": "Spec", "invariants": MSG_INV,
          "quick": {"constants": {"MaxLen": 6, "Wide": "FALSE"}, "timeout": 900},
-         "thorough": {"constants": {"MaxLen": 7, "Wide": "TRUE"}, "timeout": 2400, "time_bounded": True},
+         "thorough": {"constants": {"MaxLen": 7, "Wide": "TRUE"}, "timeout": 1500, "time_bounded": True},
          "rule": "every array of arity 0..MaxLen over per-position slot palettes (each state = one array), decoded as all "
                  "eight structure types by value API and two wire encodings; non-trivial = non-empty array"},
     ],
     "C08": [
         {"module": "MC_HeaderDecode", "spec": "Spec", "invariants": HDR_INV,
          "quick": {"constants": {"MaxLen": 2}, "timeout": 900},
-         # one level more than quick: > 3 000 000 maps; breadth-first for 40 minutes (all maps of 0..2 entries, then as many of 3 as fit)
-         "thorough": {"constants": {"MaxLen": 3}, "timeout": 2400, "time_bounded": True},
+         # one level more than quick: > 3 000 000 maps; breadth-first for 25 minutes (all maps of 0..2 entries, then as many of 3 as fit)
+         "thorough": {"constants": {"MaxLen": 3}, "timeout": 1500, "time_bounded": True},
          "rule": "every header map over the entry palette up to MaxLen entries (each state = one map), decoded "
                  "standalone / as unprotected header / inside a protected bstr, by value API and two wire encodings; "
                  "non-trivial = a map or array with at least one entry"},
